@@ -28,10 +28,12 @@ txt = ['## Appendix D. Independently seeded changes and the checks that catch th
 p = '/verif/DESIGN.md'
 s = open(p).read()
 i = s.find('## Appendix D.')
+j = s.find('## Appendix E.')
+tail = ('\n\n' + s[j:]) if j >= 0 else ''
 if i >= 0:
     s = s[:i].rstrip() + '\n\n'
 else:
     s = s.rstrip() + '\n\n---------------------------------------------------------------------------\n\n'
-s += '\n'.join(txt)
+s += '\n'.join(txt).rstrip() + tail
 open(p, 'w').write(s)
 print(len(rows), 'rows')
